@@ -647,6 +647,10 @@ def _exec_equiv(plan, ctx):
     if maxd > 0:
         ctx.probe("equiv_not_bit_exact")
     ra, rb = A._raw_predict(Xq), B._raw_predict(Xq)
+    if not (np.isfinite(ra).all() and np.isfinite(rb).all()):
+        # finite parameters but an overflowing forward pass: numerical blow-up, not a schedule matter
+        ctx.trivial("nan_model")
+        return
     if not np.allclose(ra, rb, atol=1e-6, rtol=0):
         ctx.fail("C17.equiv.raw_predict", "_raw_predict differs between fit and partial_fit histories")
     _check_label_space(ctx, A, Xq, plan["ykind"], y, "equiv")
@@ -674,6 +678,9 @@ def _check_label_space(ctx, est, Xq, ykind, y_train, tag):
                  {"exc": type(pred).__name__, "site": site})
         return
     raw = np.asarray(est._raw_predict(Xq), dtype=float)
+    if not np.isfinite(raw).all():
+        ctx.probe("non_finite_raw_output")
+        return
     pred = np.asarray(pred)
     classes = _classes(ykind, y_train)
     if classes is None:
